@@ -175,6 +175,81 @@ def rule_vm_carried(ck, facts):
     ck.floor(R, "carried_storages", n, 4)
 
 
+def rule_vm_post_install(ck, facts):
+    """what runs on the new machine after the migrated state was installed must not cut it back"""
+    R = "C06.vm"
+    lang = facts.crate(LANG)
+    res = [f for f in lang.fns if "::runtime::vm::" in f.path and f.kind == "assoc" and any((callee(t) or "").endswith("build_state_storage_patch_plan") for _, t in f.calls())]
+    if len(res) != 1:
+        return
+    f = res[0]
+    install = [b for b, st in f.all_stmts() if st[KIND] == "a" and st[4][1] and any(x and x.endswith("StateStorage::rawdata") for x in place_fields(st[4]))]
+    ck.require(R, bool(install), "anchor|install", "the store that installs the migrated state words in the new machine was not found in %s" % f.short)
+    if not install:
+        return
+    after = set()
+    for b in install:
+        after |= set(reachable(f, b))
+    self_ty = f.d.get("self_ty", "")
+    n = 0
+    for b, t in f.calls():
+        if b not in after:
+            continue
+        g = facts.fn(callee(t) or "")
+        if g is None or g.d.get("self_ty", "") != self_ty or g.path == f.path:
+            continue
+        di = DefIndex(g)
+        for gb, gt in g.calls():
+            c = callee(gt) or ""
+            if c.split("::")[-1] != "resize" or not gt[5]:
+                continue
+            recv = gt[5][0]
+            r = di.resolve(recv) if recv[0] in ("cp", "mv") else None
+            txt = repr(r)
+            if "global_states" not in txt and "rawdata" not in txt:
+                continue
+            n += 1
+            size = gt[5][1] if len(gt[5]) > 1 else None
+            grow_only = False
+            cur = size
+            for _ in range(6):
+                if cur is None or cur[0] not in ("cp", "mv"):
+                    break
+                rr = di.resolve(cur)
+                if rr[0] == "call":
+                    cn = (callee(rr[1]) or "").split("::")[-1]
+                    if cn == "max":
+                        # one operand is the current length of the storage
+                        for a in rr[1][5]:
+                            ra = di.resolve(a) if a[0] in ("cp", "mv") else None
+                            if ra and ra[0] == "call" and (callee(ra[1]) or "").split("::")[-1] == "len":
+                                grow_only = True
+                        break
+                    cur = rr[1][5][0] if rr[1][5] else None
+                    continue
+                if rr[0] == "rv" and rr[1][5][0] in ("use", "cast"):
+                    cur = rr[1][5][1] if rr[1][5][0] == "use" else rr[1][5][2]
+                    continue
+                break
+            if not grow_only:
+                # or guarded by `len < size`
+                dom = dominators(g)
+                for d in dom.get(gb, ()):
+                    tt = g.term(d)
+                    if d != gb and tt[KIND] == "switch" and tt[4][0] in ("cp", "mv"):
+                        rd = di.resolve(tt[4])
+                        if rd[0] == "rv" and rd[1][5][0] == "bin" and rd[1][5][1] in ("lt", "gt", "le", "ge"):
+                            ops = [di.resolve(o) if o[0] in ("cp", "mv") else None for o in rd[1][5][2:4]]
+                            if any(o and o[0] == "call" and (callee(o[1]) or "").split("::")[-1] == "len" for o in ops):
+                                grow_only = True
+            key = "post-install-resize|%s" % g.short.split("::")[-1]
+            if grow_only:
+                ck.ok(R, key, {"method": g.short, "resize": "grow-only"})
+            else:
+                ck.bad(R, key, "%s, which %s runs on the new machine after it installed the migrated state, resizes the global state storage to a size that does not take the storage's current length into account: the words of dsp that were just carried over are cut off (and come back as zeros at the next tick), so the swap of an unchanged program restarts them" % (g.short, f.short.split("::")[-1]), g.where(gt))
+    ck.floor(R, "post_install_resizes", n, 1)
+
+
 def _collect(x, out):
     if isinstance(x, list):
         if len(x) == 2 and isinstance(x[0], int) and isinstance(x[1], list):
@@ -384,6 +459,7 @@ def run(ck, facts, tier):
     rule_vm(ck, facts)
     rule_vm_fresh(ck, facts)
     rule_vm_carried(ck, facts)
+    rule_vm_post_install(ck, facts)
     rule_wasm(ck, facts)
     c08.rule_apply(ck, facts)
     # only the converse clause is this property's: equal layouts keep the buffer (the forward clause is C07/C08's)
